@@ -1,7 +1,413 @@
-"""C06 — not implemented yet (fail closed)."""
-from ..model import AnalysisError
+"""C06 Rendered text is a parser fixed point — every renderer speaks the vocabulary its own parser listens to."""
+
+from __future__ import annotations
+
+import ast
+import re as _re
+from typing import Any, Dict, List, Optional, Set, Tuple
+
+from ..core import Ctx, Report, snippet, where
+from ..fold import UNKNOWN, known
+from ..model import AnalysisError, Class, Func, own_nodes, src
+from ..pathsem import feasible, fold_path, function_paths, render_table, resolve_local
+from .. import rx
+from .c01 import normalise_first, regex_pieces
+from .common import chain, deep_resolve
+
 PROPERTY = "C06"
 LEVEL = "other"
-EXPLANATION = "not implemented"
-def run(ctx, rep, tier):
-    raise AnalysisError("rules for C06 are not implemented yet")
+EXPLANATION = (
+    "Decides that every renderer speaks the vocabulary its own parser listens to, per platform (ACL header with or "
+    "without the type word, address-group header, object-group/addrgroup/group-object keywords, host, any, the remark "
+    "action, the sequence prefix, the config-level section regexes), that parsing starts from whitespace-normalised text, "
+    "and that every attribute a renderer reads is set by the paired parser or is an exported constructor option. Does "
+    "not decide the fixed-point equality X(X(t).line).line == X(t).line over the input space."
+)
+ASSUMPTIONS = ["platforms claimed: ios and nxos (asa support is declared partial by the library itself)"]
+
+NATIVE = ("ios", "nxos")
+
+
+def _call_regex_under(ctx: Ctx, f: Func, plat: str, helper_names=("findall1", "findall2", "findall3", "re_find_t", "match", "search", "findall")) -> List[str]:
+    """Regex patterns (folded) that `f` applies on paths feasible for platform `plat`."""
+    out: List[str] = []
+    symenv = {"self._platform": plat, "self.platform": plat, "platform": plat}
+    for p in function_paths(ctx.cfg(f)):
+        if feasible(p, ctx.folder, f, symenv) is False:
+            continue
+        env = dict(symenv)
+        for node, lab in p.nodes:
+            if node.ast is None:
+                continue
+            if node.kind == "stmt" and isinstance(node.ast, (ast.Assign, ast.AnnAssign)) and node.ast.value is not None:
+                t = node.ast.targets[0] if isinstance(node.ast, ast.Assign) else node.ast.target
+                if isinstance(t, ast.Name):
+                    env[t.id] = ctx.folder.fold(node.ast.value, f.module, env)
+                elif isinstance(t, ast.Tuple) and isinstance(node.ast.value, ast.Tuple) and len(t.elts) == len(node.ast.value.elts):
+                    for a, b in zip(t.elts, node.ast.value.elts):
+                        if isinstance(a, ast.Name):
+                            env[a.id] = ctx.folder.fold(b, f.module, env)
+            roots = [node.ast] if node.kind != "for" else [node.ast.iter]
+            for r in roots:
+                for x in ast.walk(r):
+                    if isinstance(x, ast.Call) and ((isinstance(x.func, ast.Attribute) and x.func.attr in helper_names) or (isinstance(x.func, ast.Name) and x.func.id in helper_names)) and x.args:
+                        v = ctx.folder.fold(x.args[0], f.module, env)
+                        if isinstance(v, str) and v not in out:
+                            out.append(v)
+    return out
+
+
+def r06_1(ctx: Ctx, rep: Report) -> None:  # noqa: C901
+    rep.rule("R06.1")
+    folder = ctx.folder
+    # ---- 1. ACL header
+    w = ctx.func("Acl._cfg_acl_name")
+    r = ctx.func("Acl._parse_type_name")
+    types = ["extended", "standard"]
+    for plat in NATIVE:
+        for ty in types:
+            if plat == "nxos" and ty == "standard":
+                continue
+            rep.instance()
+            env = {"self._platform": plat, "self._type": ty, "self._name": "NAME"}
+            (se, text), = render_table(folder, ctx.cfg(w), w, [env])
+            if not known(text) or not isinstance(text, str):
+                raise AnalysisError("Acl._cfg_acl_name is no longer foldable")
+            ok, why = _parse_header(ctx, r, plat, text, ty)
+            if ok:
+                rep.ok(f"ACL header {plat}/{ty}: {text!r}", why, where=where(w))
+            else:
+                rep.violation("Acl._cfg_acl_name", f"{plat}/{ty}: {text!r}", f"the header the renderer emits is not read back by Acl._parse_type_name on the same platform: {why}", where(w), inp=f'Acl("{text}\\n permit ip any any", platform="{plat}").line re-parsed')
+    # ---- 2. address-group header
+    w = ctx.func("AddrGroup.cmd_addgr_name")
+    r = ctx.func("AddrGroup.line.setter")
+    for plat in NATIVE:
+        rep.instance()
+        (se, text), = render_table(folder, ctx.cfg(w), w, [{"self._platform": plat, "self._name": "NAME"}])
+        if not known(text):
+            raise AnalysisError("AddrGroup.cmd_addgr_name is no longer foldable")
+        pats = _call_regex_under(ctx, r, plat)
+        hit = [p for p in pats if _match_name(p, text) == "NAME"]
+        if hit:
+            rep.ok(f"address-group header {plat}: {text!r}", f"read back by {hit[0]!r}", where=where(w))
+        else:
+            rep.violation("AddrGroup.cmd_addgr_name", f"{plat}: {text!r}", f"none of the patterns the line setter applies on {plat} ({pats}) reads the name back from the rendered header", where(w), inp=f'AddrGroup(g.line, platform="{plat}") raises')
+    # ---- 3. ACE address group keyword
+    for cn, mname in (("AddressBase", "_cmd_addrgroup"), ("AddressAg", "_cmd_addrgroup")):
+        cls = ctx.cls(cn)
+        w = cls.methods.get(mname)
+        if w is None:
+            continue
+        isg = cls.lookup_method("_is_addrgroup")
+        lng = cls.lookup_method("_line_addrgroup")
+        for plat in NATIVE:
+            rep.instance()
+            (se, kw), = render_table(folder, ctx.cfg(w), w, [{"self._platform": plat}])
+            if not known(kw) or not isinstance(kw, str):
+                raise AnalysisError(f"{cn}._cmd_addrgroup is no longer foldable")
+            text = f"{kw} NAME"
+            reads_self = lambda f: any(isinstance(x, ast.Call) and src(x.func) == f"self.{mname}" for x in own_nodes(f.node))  # noqa: E731
+            ok1 = reads_self(isg) or any(isinstance(v, str) and text.startswith(v) for v in _startswith_literals(ctx, isg))
+            pats = _call_regex_under(ctx, lng, plat)
+            ok2 = reads_self(lng) or any(_match_name(p, text) == "NAME" for p in pats)
+            normal = [p for p in function_paths(ctx.cfg(lng)) if not p.raises and feasible(p, folder, lng, {"self._platform": plat, "self.platform": plat}) is not False]
+            if not normal:
+                rep.ok(f"{cn} group keyword {plat}", f"{lng.qualname} rejects group references on {plat}: nothing is rendered that would need reading back", nontrivial=False, where=where(lng))
+                continue
+            if ok1 and ok2:
+                rep.ok(f"{cn} group keyword {plat}: {kw!r}", "classifier and name extractor accept it", where=where(w))
+            else:
+                rep.violation(w.qualname, f"{plat}: {kw!r}", f"the keyword the renderer emits is not accepted by {'the classifier ' + isg.qualname if not ok1 else 'the name extractor ' + lng.qualname}", where(w), inp=f'{cn if cn != "AddressBase" else "Address"}("{text}", platform="{plat}")')
+    # the ACE grammar alternation knows both spellings
+    pe = ctx.func("parsers.parse_ace_extended")
+    addr = folder.local_env(pe).get("addr", UNKNOWN)
+    rep.require(known(addr), "parsers.parse_ace_extended: `addr` alternation not foldable")
+    lits = {x.strip() for x in rx.alternation_literals(addr)}
+    w = ctx.cls("AddressBase").methods["_cmd_addrgroup"]
+    for plat in NATIVE:
+        rep.instance()
+        (se, kw), = render_table(folder, ctx.cfg(w), w, [{"self._platform": plat}])
+        if kw in lits:
+            rep.ok(f"ACE grammar accepts {kw!r}", "member of the address alternation", where=where(pe))
+        else:
+            rep.violation("parsers.parse_ace_extended", f"address alternation {sorted(lits)}", f"the renderer writes {kw!r} on {plat} but the ACE grammar does not list it", where(pe))
+    # ---- 5/6. host, any
+    g = ctx.func("AddressBase.line.getter")
+    emitted: Set[str] = set()
+    for n in own_nodes(g.node):
+        if isinstance(n, ast.Return) and n.value is not None:
+            if isinstance(n.value, ast.Constant) and isinstance(n.value.value, str):
+                emitted.add(n.value.value)
+            elif isinstance(n.value, ast.JoinedStr) and n.value.values and isinstance(n.value.values[0], ast.Constant):
+                emitted.add(str(n.value.values[0].value))
+    ab = ctx.cls("AddressBase")
+    for lit, clsf in (("host ", "_is_address_host"), ("any", "_is_address_any")):
+        rep.instance()
+        f = ab.lookup_method(clsf)
+        accepts = set(_startswith_literals(ctx, f)) | set(_eq_literals(f))
+        in_grammar = any(l.strip() == lit.strip() for l in lits)
+        if lit in emitted and lit in accepts and in_grammar:
+            rep.ok(f"address keyword {lit!r}", f"emitted by the renderer, accepted by {clsf} and by the ACE grammar", where=where(g))
+        elif lit not in emitted:
+            rep.ok(f"address keyword {lit!r}", "not emitted as a literal by the renderer (nothing to agree on)", nontrivial=False, where=where(g))
+        else:
+            rep.violation("AddressBase.line.getter", f"keyword {lit!r}", f"emitted by the renderer but {'not accepted by ' + clsf if lit not in accepts else 'absent from the ACE grammar'}", where(g), inp=f'Address("{lit}10.0.0.1")')
+    # ---- 7. remark action
+    rm = ctx.func("Remark.__init__")
+    rep.instance()
+    act = None
+    for n in own_nodes(rm.node):
+        if isinstance(n, ast.Assign) and any(isinstance(t, ast.Attribute) and src(t) == "self._action" for t in n.targets) and isinstance(n.value, ast.Constant):
+            act = n.value.value
+    actions = folder.const("helpers", "ACTIONS")
+    pa = ctx.func("parsers.parse_action")
+    rxa, _ = regex_pieces(ctx, pa)
+    rl = ctx.func("Remark.line.setter")
+    expects = {n.value.value for n in own_nodes(rl.node) if isinstance(n, ast.Assign) and isinstance(n.value, ast.Constant) and isinstance(n.value.value, str)}
+    if act in actions and _re.match(rxa, f"{act} TEXT") and act in expects:
+        rep.ok(f"remark action {act!r}", "in ACTIONS, matched by parse_action, expected by Remark.line setter", where=where(rm))
+    else:
+        rep.violation("Remark.__init__", f"_action = {act!r}", "the action word a remark renders is not the one its parser expects", where(rm))
+    # ---- 8. sequence prefix
+    sq = ctx.func("AceBase._sequence_s")
+    for q in ("parsers.parse_ace_extended", "parsers.parse_ace_standard", "parsers.parse_action"):
+        f = ctx.func(q)
+        rep.instance()
+        rxx, pieces = regex_pieces(ctx, f)
+        first = pieces[0][0] if pieces else ""
+        pv = folder.local_env(f).get(first)
+        ok = isinstance(pv, str) and _re.fullmatch(pv, "4294967295") is not None and _re.fullmatch(pv, "") is not None
+        if ok:
+            rep.ok(f"{q}: leading piece {first} = {pv!r}", "matches any decimal sequence number and its absence", where=where(f))
+        else:
+            rep.violation(q, f"leading piece {first} = {pv!r}", "the sequence prefix the renderer writes (decimal digits or nothing) is not read back", where(f))
+    # ---- 9. config-level section regexes
+    cp_acls = ctx.func("ConfigParser.acls")
+    cp_add = ctx.func("ConfigParser.addgrs")
+    wa = ctx.func("Acl._cfg_acl_name")
+    wg = ctx.func("AddrGroup.cmd_addgr_name")
+    for plat in NATIVE:
+        for ty in types:
+            if plat == "nxos" and ty == "standard":
+                continue
+            rep.instance()
+            (se, text), = render_table(folder, ctx.cfg(wa), wa, [{"self._platform": plat, "self._type": ty, "self._name": "NAME"}])
+            pats = _call_regex_under(ctx, cp_acls, plat)
+            ok = False
+            for p in pats:
+                m = _re.findall(p, text)
+                if m and isinstance(m[0], tuple) and m[0][-1] == "NAME" and m[0][0].strip() in ("", ty):
+                    ok = (m[0][0].strip() == ty) if plat == "ios" else True
+            if ok:
+                rep.ok(f"ConfigParser.acls reads {text!r}", f"type and name recovered by {pats}", where=where(cp_acls))
+            else:
+                rep.violation("ConfigParser.acls", f"{pats} on {text!r}", "the section pattern does not recover type and name from the header the Acl renders", where(cp_acls))
+        rep.instance()
+        (se, text), = render_table(folder, ctx.cfg(wg), wg, [{"self._platform": plat, "self._name": "NAME"}])
+        pats = _call_regex_under(ctx, cp_add, plat)
+        ok = any((m := _re.findall(p, text)) and isinstance(m[0], tuple) and m[0][0] and m[0][-1] == "NAME" for p in pats)
+        if ok:
+            rep.ok(f"ConfigParser.addgrs reads {text!r}", f"kind and name recovered by {pats}", where=where(cp_add))
+        else:
+            rep.violation("ConfigParser.addgrs", f"{pats} on {text!r}", "the section pattern does not recover the group name from the header the AddrGroup renders", where(cp_add))
+    rep.floor(20, "writer/reader keyword pairs")
+
+
+def _match_name(pattern: str, text: str) -> Optional[str]:
+    try:
+        m = _re.findall(pattern, text)
+    except _re.error:
+        return None
+    if not m:
+        return None
+    r = m[0]
+    if isinstance(r, tuple):
+        r = r[-1]
+    return r
+
+
+def _startswith_literals(ctx: Ctx, f: Optional[Func]) -> List[str]:
+    out: List[str] = []
+    if f is None:
+        return out
+    for n in own_nodes(f.node):
+        if isinstance(n, ast.Call) and isinstance(n.func, ast.Attribute) and n.func.attr == "startswith" and n.args:
+            v = ctx.folder.fold(n.args[0], f.module)
+            if isinstance(v, str):
+                out.append(v)
+            elif isinstance(v, (tuple, list)):
+                out.extend(v)
+    return out
+
+
+def _eq_literals(f: Optional[Func]) -> List[str]:
+    out = []
+    if f is None:
+        return out
+    for n in own_nodes(f.node):
+        if isinstance(n, ast.Compare) and len(n.ops) == 1 and isinstance(n.ops[0], ast.Eq) and isinstance(n.comparators[0], ast.Constant) and isinstance(n.comparators[0].value, str):
+            out.append(n.comparators[0].value)
+    return out
+
+
+def _parse_header(ctx: Ctx, r: Func, plat: str, text: str, ty: str) -> Tuple[bool, str]:
+    """Does Acl._parse_type_name, specialised to `plat`, read type `ty` and name NAME from `text`?"""
+    folder = ctx.folder
+    symenv = {"self._platform": plat}
+    # expected prefix
+    exp = folder.local_env(r).get("expected")
+    if isinstance(exp, str) and not text.startswith(exp):
+        return False, f"text does not start with the expected prefix {exp!r}"
+    pats = _call_regex_under(ctx, r, plat)
+    rest = None
+    for p in pats:
+        m = _re.findall(p, text)
+        if m and isinstance(m[0], str) and text.endswith(m[0]):
+            rest = m[0]
+    if rest is None:
+        return False, f"no pattern of {pats} extracts the part after the prefix"
+    # does a path feasible for plat treat the whole rest as the name (no type word)?
+    takes_all = False
+    for p in function_paths(ctx.cfg(r)):
+        if p.raises or feasible(p, folder, r, symenv) is False:
+            continue
+        nm = p.env.get("name")
+        if isinstance(nm, ast.Name) and nm.id in ("_line",):
+            if not any(isinstance(t, ast.Name) and t.id == "_type" for t, tr in p.atoms):
+                takes_all = True
+    if takes_all:
+        if rest == "NAME":
+            return True, "platform takes the whole remainder as the name; the renderer wrote no type word"
+        return False, f"on {plat} the parser takes the whole remainder {rest!r} as the name, but the renderer wrote a type word"
+    typed = [p for p in pats if "(" in p and _re.findall(p, rest)]
+    for p in typed:
+        m = _re.findall(p, rest)
+        if m and isinstance(m[0], tuple) and m[0][0] == ty and m[0][1] == "NAME":
+            return True, f"type and name read back by {p!r}"
+    if rest == "NAME":
+        return False, f"on {plat} the parser expects a type word, the renderer wrote none (the ACL re-parses as another type)"
+    return False, f"no typed pattern of {pats} reads {rest!r}"
+
+
+def _own_reads(ctx: Ctx, f: Func, cls: Class, _seen: Optional[Set[int]] = None) -> Set[str]:
+    """Plain attributes of the object itself (self.X, not self.X.Y's attributes) read by f, following
+    property getters and methods invoked on self."""
+    _seen = _seen if _seen is not None else set()
+    if id(f) in _seen:
+        return set()
+    _seen.add(id(f))
+    out: Set[str] = set()
+    self_name = f.params[0] if f.params else "self"
+    for n in own_nodes(f.node):
+        if isinstance(n, ast.Attribute) and isinstance(n.value, ast.Name) and n.value.id == self_name and isinstance(n.ctx, ast.Load):
+            g = cls.lookup_getter(n.attr)
+            m = cls.lookup_method(n.attr)
+            if g is not None:
+                out |= _own_reads(ctx, g, cls, _seen)
+            elif m is not None:
+                out |= _own_reads(ctx, m, cls, _seen)
+            elif n.attr not in ("__class__", "__dict__"):
+                out.add(n.attr)
+        if isinstance(n, ast.Call) and isinstance(n.func, ast.Attribute) and src(n.func.value) == "super()":
+            for c in cls.mro[cls.mro.index(f.cls) + 1 :] if f.cls in cls.mro else []:
+                g2 = c.getters.get(n.func.attr) or c.methods.get(n.func.attr)
+                if g2 is not None:
+                    out |= _own_reads(ctx, g2, cls, _seen)
+                    break
+        if isinstance(n, ast.Attribute) and src(n.value) == "super()" and f.cls in cls.mro:
+            for c in cls.mro[cls.mro.index(f.cls) + 1 :]:
+                g2 = c.getters.get(n.attr)
+                if g2 is not None:
+                    out |= _own_reads(ctx, g2, cls, _seen)
+                    break
+    return out
+
+
+def _own_writes(ctx: Ctx, f: Func, cls: Class, _seen: Optional[Set[int]] = None) -> Set[str]:
+    _seen = _seen if _seen is not None else set()
+    if id(f) in _seen:
+        return set()
+    _seen.add(id(f))
+    out: Set[str] = set()
+    self_name = f.params[0] if f.params else "self"
+    for n in own_nodes(f.node):
+        if isinstance(n, (ast.Assign, ast.AugAssign, ast.AnnAssign)):
+            for t in n.targets if isinstance(n, ast.Assign) else [n.target]:
+                if isinstance(t, ast.Attribute) and isinstance(t.value, ast.Name) and t.value.id == self_name:
+                    stt = cls.lookup_setter(t.attr)
+                    if stt is not None:
+                        out |= _own_writes(ctx, stt, cls, _seen)
+                    else:
+                        out.add(t.attr)
+        if isinstance(n, ast.Call) and isinstance(n.func, ast.Attribute):
+            if isinstance(n.func.value, ast.Name) and n.func.value.id == self_name:
+                m = cls.lookup_method(n.func.attr)
+                if m is not None:
+                    out |= _own_writes(ctx, m, cls, _seen)
+            elif src(n.func.value) == "super()" and f.cls in cls.mro:
+                for c in cls.mro[cls.mro.index(f.cls) + 1 :]:
+                    if n.func.attr in c.methods:
+                        out |= _own_writes(ctx, c.methods[n.func.attr], cls, _seen)
+                        break
+    return out
+
+
+def r06_3(ctx: Ctx, rep: Report) -> None:
+    rep.rule("R06.3")
+    n = 0
+    for cls in ctx.prog.classes.values():
+        g = cls.getters.get("line")
+        st = cls.lookup_setter("line")
+        if g is None or st is None or cls.name in ("Base",):
+            continue
+        n += 1
+        reads = _own_reads(ctx, g, cls)
+        writes = _own_writes(ctx, st, cls)
+        # constructor options: assigned in the __init__ chain from kwargs / init helpers
+        ctor: Set[str] = set()
+        consts: Set[str] = set()
+        for c in cls.mro:
+            init = c.methods.get("__init__")
+            if init is None:
+                continue
+            kw = init.node.args.kwarg.arg if init.node.args.kwarg else "kwargs"
+            for x in own_nodes(init.node):
+                if isinstance(x, (ast.Assign, ast.AnnAssign)) and x.value is not None:
+                    for t in x.targets if isinstance(x, ast.Assign) else [x.target]:
+                        if isinstance(t, ast.Attribute) and src(t.value) == "self":
+                            if any(isinstance(y, ast.Name) and y.id == kw for y in ast.walk(x.value)):
+                                ctor.add(t.attr)
+                                stt = cls.lookup_setter(t.attr)
+                                if stt is not None:
+                                    ctor |= _own_writes(ctx, stt, cls)
+                            elif isinstance(x.value, ast.Constant):
+                                consts.add(t.attr)
+        other_writers: Set[str] = set()
+        for c in cls.mro:
+            for f in c.all_funcs():
+                if f.name == "__init__" or f is st:
+                    continue
+                for x in own_nodes(f.node):
+                    if isinstance(x, (ast.Assign, ast.AugAssign, ast.AnnAssign)):
+                        for t in x.targets if isinstance(x, ast.Assign) else [x.target]:
+                            if isinstance(t, ast.Attribute) and src(t.value) == "self":
+                                other_writers.add(t.attr)
+        for a in sorted(reads):
+            rep.instance()
+            if a in writes:
+                rep.ok(f"{cls.name}.line: {a}", "set by the paired line setter", nontrivial=False)
+            elif a in ctor:
+                rep.ok(f"{cls.name}.line: {a}", "constructor option (restored from exported data)", nontrivial=False)
+            elif a in consts and a not in other_writers:
+                rep.ok(f"{cls.name}.line: {a}", "constant stored once in __init__", nontrivial=False)
+            elif a in other_writers and (cls.lookup_setter(a.lstrip("_")) is not None or a in ("_type", "_sequence", "_items", "_name", "_indent", "_has_port", "_platform")):
+                rep.ok(f"{cls.name}.line: {a}", "own public setter / exported option", nontrivial=False)
+            else:
+                rep.violation(g.qualname, f"reads {a}", f"the renderer of {cls.name} reads {a}, which neither the line parser sets nor a constructor option restores: text that depends on it cannot round-trip", where(g))
+    rep.floor(9, "line getter/setter pairs")
+
+
+def run(ctx: Ctx, rep: Report, tier: str) -> None:
+    r06_1(ctx, rep)
+    normalise_first(ctx, rep, rid="R06.2")
+    r06_3(ctx, rep)
